@@ -7,7 +7,7 @@ Next == Pick
 Spec == Init /\ [][Next]_<<r, done>>
 \* every bare reference of every code path breaks in some scope: report each (TLC -continue)
 Emit == done => PrintT(<<"CASE", ToJson([ref |-> r, hygienic |-> Hygienic(r),
-                                        breaks |-> {IF sc.prelude THEN (IF sc.shadows = {} THEN "normal" ELSE CHOOSE n \in sc.shadows : TRUE)
+                                        breaks |-> {IF sc.nostd THEN "no_std" ELSE IF sc.prelude THEN (IF sc.shadows = {} THEN "normal" ELSE CHOOSE n \in sc.shadows : TRUE)
                                                     ELSE "no_prelude" : sc \in {s \in Scopes : ~Resolves(r, s)}}])>>)
 P_C15_Hygienic == done => Hygienic(r)
 =============================================================================
